@@ -92,6 +92,13 @@ func c04(r *Run) {
 	}
 	r.borrow([]string{"C10.R4:tail-reset-under-token", "C10.R4:Release-returns-token"}, "C10.R4", "C04.R3", func() { c10ConnSide(r) })
 
+	// bytes sent before the sender closed are offered to the handler before end-of-stream (C06.R4)
+	if w.Cfg.Name == "linux" {
+		r.borrow([]string{"C06.R4:"}, "C06.R4", "C04.R4", func() { c06(r) })
+		// the sender's nodes keep their memory until it was sent: split ownership (C02.R4 / C03)
+		r.borrow([]string{"C02.R4:WriteDirect:unlinked-split"}, "C02.R4", "C04.R1", func() { c02(r) })
+	}
+
 	// ---- R4 hang-up after drain; R5 flush hand-off ----------------------------------------------------
 	r.borrow([]string{"C11.R3:drain-before-hup", "C11.R3:drained-count-feeds-decision", "C11.R3:hup-verdict-has-reason"}, "C11.R3", "C04.R4", func() { c11(r) })
 	if w.Cfg.Name == "linux" || w.Cfg.Name == "darwin" {
